@@ -198,16 +198,26 @@ def systematic(rng: random.Random, gid_prefix: str, kind_filter: Callable[[str, 
         extra = [a for a in assigns if a not in keep][:max(0, probe_cap - len(keep))]
         for a in keep + extra:
             combos.append((kname, build, a))
-    # kind coverage first: one assignment per kind (kinds in random order), then the remaining assignments shuffled
+    # kind coverage first (kinds in random order): per kind the assignment that puts a consume-then-fail probe into every slot
+    # (the most demanding one for rewinding: every sub-rule can fail after consuming), then one more assignment per kind,
+    # then the remaining assignments shuffled
     rng.shuffle(combos)
-    first, rest, seen_k = [], [], set()
+    ctf = next(i for i, p in enumerate(ps) if p[0] == 'ab')
+    by_kind = {}
     for cb in combos:
-        if cb[0] not in seen_k:
-            seen_k.add(cb[0])
-            first.append(cb)
-        else:
-            rest.append(cb)
-    combos = first + rest
+        by_kind.setdefault(cb[0], []).append(cb)
+    first, second, rest = [], [], []
+    for kname, cbs in by_kind.items():
+        allctf = next((cb for cb in cbs if all(x == ctf for x in cb[2])), None)
+        if allctf is None:
+            allctf = (kname, cbs[0][1], tuple(ctf for _ in cbs[0][2]))
+        first.append(allctf)
+        others = [cb for cb in cbs if cb is not allctf]
+        if others:
+            second.append(others[0])
+            rest.extend(others[1:])
+    rng.shuffle(rest)
+    combos = first + second + rest
     if max_grammars is not None:
         combos = combos[:max_grammars]
     out = []
